@@ -12,7 +12,7 @@ BOUNDS = ("Container.transfer / Plate.transfer on arbitrary valid pre-states: so
           "substance library {water, DMSO, NaCl, Na2SO4, lipase, amylase}, every amount symbolic in [0, 1e6] storage "
           "units, destination with 0-2 symbolic components, quantity symbolic with 0 <= q <= held(unit of q); "
           "units L/g/mol/U with 2 (quick) or 3-4 (thorough) prefixes each; plate forms 1->n and n->1 with n <= 3 "
-          "wells (1x3 / 2x2 slices), element-wise 2 wells; chains of two successive transfers; rounding model per "
+          "wells (1x3 rows), element-wise, and the same three forms with selections given as lists of wells (2x2 plates); chains of two successive transfers; rounding model per "
           "cell: lite (internal roundings = identity) or delta (|round(x)-x| <= 0.5e-10, single operation).")
 OUTSIDE = ("IEEE rounding of single operations; more than 3 components; plates larger than 2x2/1x3; chains longer "
            "than 2 (they follow by induction from the single step on an arbitrary valid state); symbolic molecular "
@@ -57,7 +57,7 @@ def cells(tier, seed):
         out.append({'id': f"chain2/{unit}", 'fn': 'h_chain', 'round': 'lite', 'max_paths': 120, 'cost': 3,
                     'params': {'unit': unit, 'src': ['water', 'NaCl', 'lipase']}})
     # plate pairing forms
-    forms = ['c->row', 'row->c', 'well->row', 'row->well', 'row->row']
+    forms = ['c->row', 'row->c', 'well->row', 'row->well', 'row->row', 'c->list', 'list->c', 'list->list']
     for form in forms:
         for unit in (['uL', 'mg'] if tier == 'quick' else ['uL', 'mg', 'mmol', 'U']):
             out.append({'id': f"plate/{form}/{unit}", 'fn': 'h_plate', 'round': 'lite', 'max_paths': 200, 'cost': 4,
@@ -266,6 +266,55 @@ def h_plate(h):
                 loss = loss + P.wells[0, c].contents.get(s, 0) - P2.wells[0, c].contents.get(s, 0)
             h.require(f'{form}:gain==loss', h.eq(d2.contents.get(s, 0) - dst.contents.get(s, 0), loss,
                                                  h.rs(2 * n * ulp)))
+    elif form in ('c->list', 'list->c', 'list->list'):
+        # selections given as lists of wells: A1 and B2 of a 2x2 plate
+        cells_ = [(0, 0), (1, 1)]
+        item = ['A:1', ('B', 2)]
+        if form == 'c->list':
+            src = mk_container(h, lib, 'src', mix, lo=Fr(1, 1000))
+            P = _mk_plate(h, lib, 'P', 2, 2, ['water'])
+            h.assume(h.le(qb * 2, lib.total(src.contents, base)))
+            try:
+                s2, P2 = Plate.transfer(src, P[item], quantity)
+            except Exception as e:  # noqa: BLE001
+                h.outcome = 'raised:' + type(e).__name__
+                return
+            min_vol = src.volume - (qb / lib.vol_mult()) if base == 'L' else None
+            _check_aliquot(h, lib, form, src, s2, qb * 2, base, steps=2, min_vol=min_vol)
+            for rc in cells_:
+                got = lib.total(P2.wells[rc].contents, base) - lib.total(P.wells[rc].contents, base)
+                h.require(f'{form}:each-well-gets-q', h.eq(got, qb, _size_slack(h, lib, list(src.contents), base, qb, 1, min_vol)))
+        elif form == 'list->c':
+            P = _mk_plate(h, lib, 'P', 2, 2, mix)
+            dst = mk_container(h, lib, 'dst', ['water'])
+            for rc in cells_:
+                h.assume(h.le(qb, lib.total(P.wells[rc].contents, base)))
+            try:
+                P2, d2 = C.transfer(P[item], dst, quantity)
+            except Exception as e:  # noqa: BLE001
+                h.outcome = 'raised:' + type(e).__name__
+                return
+            sl = 0
+            for rc in cells_:
+                _check_aliquot(h, lib, form, P.wells[rc], P2.wells[rc], qb, base)
+                sl = sl + _size_slack(h, lib, list(P.wells[rc].contents), base, qb, 1, P.wells[rc].volume)
+            gain = lib.total(d2.contents, base) - lib.total(dst.contents, base)
+            h.require(f'{form}:collector-gains-n*q', h.eq(gain, qb * 2, sl))
+        else:
+            P = _mk_plate(h, lib, 'P', 2, 2, mix)
+            Q = _mk_plate(h, lib, 'Q', 2, 2, ['water'])
+            item2 = [(2, 1), 'A:2']
+            cells2 = [(1, 0), (0, 1)]
+            for rc in cells_:
+                h.assume(h.le(qb, lib.total(P.wells[rc].contents, base)))
+            try:
+                P2, Q2 = Plate.transfer(P[item], Q[item2], quantity)
+            except Exception as e:  # noqa: BLE001
+                h.outcome = 'raised:' + type(e).__name__
+                return
+            for rc, rd in zip(cells_, cells2):
+                _check_aliquot(h, lib, form, P.wells[rc], P2.wells[rc], qb, base)
+                _check_gain(h, form, P.wells[rc], P2.wells[rc], Q.wells[rd], Q2.wells[rd])
     elif form == 'row->row':
         P = _mk_plate(h, lib, 'P', 1, n, mix)
         Q = _mk_plate(h, lib, 'Q', 1, n, ['water'])
